@@ -55,3 +55,11 @@ Theorem C17_dropped_without_effect : forall me inst fuel m s,
   receive fuel me inst m s = s.
 Proof. exact receive_dropped. Qed.
 Print Assumptions C17_dropped_without_effect.
+
+(* whatever the order in which the two loops get to act - a sync accepted by the main loop, then anything handled by the
+   worker, then the worker's half of the sync - a message that is handed to "the current term" is handed to the term of
+   the node's current height: the installed term's height is the node's height after every event sequence *)
+From LH Require Import Quorum Msg Term TermFacts NodeFacts.
+Theorem C17_installed_term_is_for_the_node_height : forall c evs t, cfg_ok c -> n_term (nrun c evs) = Some t -> t_h t = n_h (nrun c evs).
+Proof. exact installed_term_height. Qed.
+Print Assumptions C17_installed_term_is_for_the_node_height.
